@@ -97,9 +97,6 @@ func (n *Node) match(topic format.Topic, msgs *[][]byte) error {
 			}
 		}
 	} else {
-		if n.Children == nil {
-			n.Children = make(map[string]*Node)
-		}
 		if child, ok := n.Children[token]; ok {
 			if err := child.match(topic, msgs); err != nil {
 				return err
